@@ -335,6 +335,10 @@ pub fn valid_answer(offer: &SessionDescription, ans: &SessionDescription, cx: &C
                 else if o.mid.is_empty() { "added-to-midless-offer" } else { "other" };
             v.fails.push((format!("ans:mids:{class}"), format!("section {i}: offer mid {:?}, answer mid {:?}", o.mid, a.mid)));
         }
+        // a MID-less section is matched by kind; if that transceiver carries a mid of its own (an earlier create_offer) every
+        // lookup `find(|s| s.mid == mid)` is made with THAT mid and lands on whatever offered section happens to have it
+        let via_own_mid: Vec<usize> = if o.mid.is_empty() { (0..offer.media_sections.len()).filter(|j| { let m = &offer.media_sections[*j].mid;
+            !m.is_empty() && cx.trx_mids.iter().any(|(k2, tm)| *k2 == o.kind && tm.as_deref() == Some(m.as_str())) }).collect() } else { vec![] };
         // ---- payload types
         let unoffered = a.formats.iter().find(|f| !o.formats.contains(f));
         let rebound = { let ob = bindings(o); bindings(a).into_iter().find(|(pt, n, c)| o.formats.contains(pt) && ob.iter().any(|(p2, n2, c2)| p2 == pt && (n2 != n || c2 != c))) };
@@ -349,8 +353,9 @@ pub fn valid_answer(offer: &SessionDescription, ans: &SessionDescription, cx: &C
                     let first_audio = offer.media_sections.iter().position(|m| m.kind == MediaKind::Audio).unwrap_or(i);
                     // a transceiver of the kind carries a mid that no offered section has (assigned by an earlier create_offer):
                     // matched to a mid-less section by kind, it looks the remote section up by ITS mid and finds none
-                    let own_mid = cx.trx_mids.iter().any(|(k2, m)| *k2 == o.kind && m.as_deref().is_some_and(|m| !m.is_empty() && !offer.media_sections.iter().any(|s2| s2.mid == m)));
+                    let own_mid = cx.trx_mids.iter().any(|(k2, m)| *k2 == o.kind && m.as_deref().is_some_and(|m| !m.is_empty()));
                     if o.mid.is_empty() && own_mid && a.formats == local_pts { "own-mid-lookup-misses-midless-section" }
+                    else if via_own_mid.iter().any(|j| offer.media_sections[*j].kind == MediaKind::Audio && consistent(&offer.media_sections[*j])) { "own-mid-lookup-hits-another-section" }
                     else if o.mid.is_empty() && first_audio != i && consistent(&offer.media_sections[first_audio]) { "midless-first-audio-section-consulted" }
                     else if !o.mid.is_empty() && first_same_mid != i { "duplicate-mid" }
                     else if !common(o) && a.formats == local_pts { "no-common-codec-local-list" }
@@ -380,14 +385,20 @@ pub fn valid_answer(offer: &SessionDescription, ans: &SessionDescription, cx: &C
         if let Some(p) = aa.iter().find(|p| !oa.contains(p)) {
             v.rx = false;
             let src = if first_same_mid != i { Some(first_same_mid) } else { None };
-            let cause = match src { Some(j) if aa.iter().all(|q| apt_pairs(&offer.media_sections[j]).contains(q)) => "taken-from-first-section-with-same-mid", _ => "other" };
+            let cause = match src { Some(j) if aa.iter().all(|q| apt_pairs(&offer.media_sections[j]).contains(q)) => "taken-from-first-section-with-same-mid",
+                _ if via_own_mid.iter().any(|j| aa.iter().all(|q| apt_pairs(&offer.media_sections[*j]).contains(q))) => "taken-from-section-with-the-transceivers-own-mid",
+                // the transceiver's own mid names no offered section: merge_remote_rtx_into_answer falls back to the FIRST video section
+                _ if o.mid.is_empty() && cx.trx_mids.iter().any(|(k2, m)| *k2 == o.kind && m.as_deref().is_some_and(|m| !m.is_empty()))
+                    && offer.media_sections.iter().find(|m| m.kind == MediaKind::Video).is_some_and(|fv| aa.iter().all(|q| apt_pairs(fv).contains(q))) => "own-mid-lookup-falls-back-to-first-video-section",
+                _ => "other" };
             v.fails.push((format!("ans:rtx:{neg}:{cause}"), format!("section {i}: apt {:?} not offered {:?}", p, oa)));
         }
         // ---- header extensions
         let (oe, ae) = (ext_ids(o), ext_ids(a));
         if let Some(id) = ae.iter().find(|id| !oe.contains(id)) {
             v.ex = false;
-            let cause = if first_same_mid != i && ae.iter().all(|x| ext_ids(&offer.media_sections[first_same_mid]).contains(x)) { "taken-from-first-section-with-same-mid" } else { "other" };
+            let cause = if first_same_mid != i && ae.iter().all(|x| ext_ids(&offer.media_sections[first_same_mid]).contains(x)) { "taken-from-first-section-with-same-mid" }
+                else if via_own_mid.iter().any(|j| ae.iter().all(|x| ext_ids(&offer.media_sections[*j]).contains(x))) { "taken-from-section-with-the-transceivers-own-mid" } else { "other" };
             v.fails.push((format!("ans:extmap-id-not-offered:{k}:{cause}"), format!("section {i}: id {id}, offered {:?}", oe)));
         }
         let mut s = ae.clone(); s.sort(); s.dedup();
